@@ -6,6 +6,7 @@ for d in seeded/*/; do
   WT=/tmp/sa_$N; git -C /repo worktree remove --force $WT 2>/dev/null; git -C /repo worktree add -q $WT HEAD || continue
   if ! git -C $WT apply $PWD/$d/patch.diff 2>/dev/null; then echo "$N $P PATCH-DOES-NOT-APPLY"; git -C /repo worktree remove --force $WT; continue; fi
   FLOWDYN_REPO=$WT VERIF_REPLAY_DIR=/tmp/sa_replays_$N VERIF_SEED=${1:-1} ./check $P --tier quick --no-evidence >/tmp/sa_$N.log 2>&1; RC=$?
-  echo "$N $P rc=$RC $(grep -m1 failing /tmp/sa_$N.log | cut -c1-140)"
+  ST=$(/venv/bin/python -c "import json;print(json.load(open('$d/meta.json')).get('status',''))")
+  echo "$N $P rc=$RC $([ "$ST" = not-caught ] && echo '[documented: outside the input domain, not caught by design]') $(grep -m1 failing /tmp/sa_$N.log | cut -c1-140)"
   git -C /repo worktree remove --force $WT; rm -rf /tmp/sa_replays_$N
 done
